@@ -572,4 +572,201 @@ theorem Table.parseConf_perm (T : Table) (L L' : Confs) (hp : L.Perm L')
   unfold Table.parseConf
   rw [T.parsePhase_perm 0 L L' hp hnd hnc, T.parsePhase_perm 1 L L' hp hnd hnc]
 
+/-! ### non-interference: a program that is clean for `(K, A)` apart from bindings `A ← K` -/
+
+/-- the two states agree outside the parameter keys `K` and the attributes `A` -/
+def Agree (K A : List Nat) (σ σ' : State) : Prop :=
+  (∀ k, k ∉ K → σ.params k = σ'.params k) ∧ (∀ a, a ∉ A → σ.settings a = σ'.settings a)
+
+def AgreeO (K A : List Nat) : Option State → Option State → Prop
+  | some σ, some σ' => Agree K A σ σ'
+  | none, none => True
+  | _, _ => False
+
+theorem Expr.eval_agree (K A : List Nat) (σ σ' : State) (h : Agree K A σ σ') : ∀ (e : Expr),
+    (∀ k ∈ K, e.mentions k = false) → (∀ a ∈ A, e.readsAttr a = false) → e.eval σ = e.eval σ' := by
+  intro e
+  induction e with
+  | param k =>
+    intro hk _
+    have : k ∉ K := fun hin => by have := hk k hin; simp [Expr.mentions] at this
+    exact h.1 k this
+  | attr a =>
+    intro _ ha
+    have : a ∉ A := fun hin => by have := ha a hin; simp [Expr.readsAttr] at this
+    simp [Expr.eval, h.2 a this]
+  | const v => intro _ _; rfl
+  | app f e ih =>
+    intro hk ha
+    simp only [Expr.eval]
+    rw [ih (fun k hin => by simpa [Expr.mentions] using hk k hin) (fun a hin => by simpa [Expr.readsAttr] using ha a hin)]
+
+theorem Cond.eval_agree (K A : List Nat) (σ σ' : State) (h : Agree K A σ σ') : ∀ (c : Cond),
+    (∀ k ∈ K, c.mentions k = false) → (∀ a ∈ A, c.readsAttr a = false) → c.eval σ = c.eval σ' := by
+  intro c
+  induction c with
+  | hasParam k =>
+    intro hk _
+    have : k ∉ K := fun hin => by have := hk k hin; simp [Cond.mentions] at this
+    simp [Cond.eval, h.1 k this]
+  | truthy e => intro hk ha; simp only [Cond.eval]; rw [Expr.eval_agree K A σ σ' h e (by simpa [Cond.mentions] using hk) (by simpa [Cond.readsAttr] using ha)]
+  | eqStr e s => intro hk ha; simp only [Cond.eval]; rw [Expr.eval_agree K A σ σ' h e (by simpa [Cond.mentions] using hk) (by simpa [Cond.readsAttr] using ha)]
+  | isNone e => intro hk ha; simp only [Cond.eval]; rw [Expr.eval_agree K A σ σ' h e (by simpa [Cond.mentions] using hk) (by simpa [Cond.readsAttr] using ha)]
+  | lenEq e n => intro hk ha; simp only [Cond.eval]; rw [Expr.eval_agree K A σ σ' h e (by simpa [Cond.mentions] using hk) (by simpa [Cond.readsAttr] using ha)]
+  | lenGt e n => intro hk ha; simp only [Cond.eval]; rw [Expr.eval_agree K A σ σ' h e (by simpa [Cond.mentions] using hk) (by simpa [Cond.readsAttr] using ha)]
+  | not c ih => intro hk ha; simp only [Cond.eval]; rw [ih (by simpa [Cond.mentions] using hk) (by simpa [Cond.readsAttr] using ha)]
+  | and c d ihc ihd =>
+    intro hk ha
+    simp only [Cond.mentions, Bool.or_eq_false_iff] at hk
+    simp only [Cond.readsAttr, Bool.or_eq_false_iff] at ha
+    simp only [Cond.eval]
+    rw [ihc (fun k hin => (hk k hin).1) (fun a hin => (ha a hin).1), ihd (fun k hin => (hk k hin).2) (fun a hin => (ha a hin).2)]
+  | or c d ihc ihd =>
+    intro hk ha
+    simp only [Cond.mentions, Bool.or_eq_false_iff] at hk
+    simp only [Cond.readsAttr, Bool.or_eq_false_iff] at ha
+    simp only [Cond.eval]
+    rw [ihc (fun k hin => (hk k hin).1) (fun a hin => (ha a hin).1), ihd (fun k hin => (hk k hin).2) (fun a hin => (ha a hin).2)]
+
+theorem AgreeO_bind (K A : List Nat) (x x' : Option State) (f : State → Option State)
+    (hx : AgreeO K A x x') (hf : ∀ σ σ', Agree K A σ σ' → AgreeO K A (f σ) (f σ')) :
+    AgreeO K A (x.bind f) (x'.bind f) := by
+  cases x <;> cases x' <;> simp_all [AgreeO]
+
+/-- a statement that touches neither `K` nor `A` preserves agreement (and raises on one side iff on the other) -/
+theorem exec_agree_clean (K A : List Nat) : ∀ (s : Stmt),
+    (∀ k ∈ K, s.mentions k = false) → (∀ a ∈ A, s.readsAttr a = false ∧ s.writesAttr a = false) →
+    ∀ σ σ', Agree K A σ σ' → AgreeO K A (s.exec σ) (s.exec σ') := by
+  intro s
+  induction s with
+  | skip => intro _ _ σ σ' h; exact h
+  | set a e =>
+    intro hk ha σ σ' h
+    have he := Expr.eval_agree K A σ σ' h e (by simpa [Stmt.mentions] using hk) (fun a' hin => by simpa [Stmt.readsAttr] using (ha a' hin).1)
+    have hna : a ∉ A := fun hin => by have := (ha a hin).2; simp [Stmt.writesAttr] at this
+    simp only [Stmt.exec, he]
+    cases e.eval σ' with
+    | none => trivial
+    | some v =>
+      refine ⟨h.1, fun a' ha' => ?_⟩
+      by_cases hx : a' = a
+      · subst hx; simp [upd_same]
+      · simp [upd_other _ _ _ _ hx, h.2 a' ha']
+  | setParam k e =>
+    intro hk ha σ σ' h
+    simp only [Stmt.mentions, Bool.or_eq_false_iff, beq_eq_false_iff_ne, ne_eq] at hk
+    have he := Expr.eval_agree K A σ σ' h e (fun k' hin => (hk k' hin).2) (fun a' hin => by simpa [Stmt.readsAttr] using (ha a' hin).1)
+    simp only [Stmt.exec, he]
+    cases e.eval σ' with
+    | none => trivial
+    | some v =>
+      refine ⟨fun k' hk' => ?_, h.2⟩
+      by_cases hx : k' = k
+      · subst hx; simp [upd_same]
+      · simp [upd_other _ _ _ _ hx, h.1 k' hk']
+  | ite c t e iht ihe =>
+    intro hk ha σ σ' h
+    simp only [Stmt.mentions, Bool.or_eq_false_iff] at hk
+    simp only [Stmt.readsAttr, Stmt.writesAttr, Bool.or_eq_false_iff] at ha
+    have hc := Cond.eval_agree K A σ σ' h c (fun k hin => (hk k hin).1.1) (fun a hin => (ha a hin).1.1.1)
+    simp only [Stmt.exec, hc]
+    cases c.eval σ' with
+    | none => trivial
+    | some b =>
+      cases b
+      · exact ihe (fun k hin => (hk k hin).2) (fun a hin => ⟨(ha a hin).1.2, (ha a hin).2.2⟩) σ σ' h
+      · exact iht (fun k hin => (hk k hin).1.2) (fun a hin => ⟨(ha a hin).1.1.2, (ha a hin).2.1⟩) σ σ' h
+  | seq s t ihs iht =>
+    intro hk ha σ σ' h
+    simp only [Stmt.mentions, Bool.or_eq_false_iff] at hk
+    simp only [Stmt.readsAttr, Stmt.writesAttr, Bool.or_eq_false_iff] at ha
+    simp only [Stmt.exec]
+    exact AgreeO_bind K A _ _ _ (ihs (fun k hin => (hk k hin).1) (fun a hin => ⟨(ha a hin).1.1, (ha a hin).2.1⟩) σ σ' h)
+      (fun τ τ' hτ => iht (fun k hin => (hk k hin).2) (fun a hin => ⟨(ha a hin).1.2, (ha a hin).2.2⟩) τ τ' hτ)
+
+/-- a simple binding `A ← K` preserves agreement outside `(K, A)` -/
+theorem exec_agree_binding (K A : List Nat) (s : Stmt) (hb : s.bindingIn K A = true) (σ σ' : State)
+    (h : Agree K A σ σ') : AgreeO K A (s.exec σ) (s.exec σ') := by
+  unfold Stmt.bindingIn at hb
+  split at hb
+  · next a k hs =>
+    simp only [Bool.and_eq_true, List.contains_iff_mem] at hb
+    have := simpleBinding?_eq hs
+    subst this
+    have hset : ∀ (τ : State), ∃ τ', (Stmt.ite (.hasParam k) (.set a (.param k)) .skip).exec τ = some τ' ∧
+        τ'.params = τ.params ∧ ∀ a', a' ≠ a → τ'.settings a' = τ.settings a' := by
+      intro τ
+      cases hp : τ.params k with
+      | none => exact ⟨τ, by simp [Stmt.exec, Cond.eval, hp], rfl, fun _ _ => rfl⟩
+      | some v =>
+        exact ⟨{ τ with settings := upd τ.settings a v }, by simp [Stmt.exec, Cond.eval, Expr.eval, hp], rfl,
+          fun a' ha' => upd_other _ _ _ _ ha'⟩
+    obtain ⟨τ, h1, hp1, hs1⟩ := hset σ
+    obtain ⟨τ', h2, hp2, hs2⟩ := hset σ'
+    rw [h1, h2]
+    refine ⟨fun k' hk' => by rw [hp1, hp2]; exact h.1 k' hk', fun a' ha' => ?_⟩
+    have hne : a' ≠ a := fun heq => ha' (by simpa [heq] using hb.2)
+    rw [hs1 a' hne, hs2 a' hne]
+    exact h.2 a' ha'
+  · simp at hb
+
+theorem execList_agree (K A : List Nat) : ∀ (l : List Stmt), cleanOrBinding l K A = true →
+    ∀ σ σ', Agree K A σ σ' → AgreeO K A (execList l σ) (execList l σ') := by
+  intro l
+  induction l with
+  | nil => intro _ σ σ' h; exact h
+  | cons s r ih =>
+    intro hl σ σ' h
+    simp only [cleanOrBinding, List.all_cons, Bool.and_eq_true, Bool.or_eq_true] at hl
+    simp only [execList]
+    refine AgreeO_bind K A _ _ _ ?_ (fun τ τ' hτ => ih (by simpa [cleanOrBinding] using hl.2) τ τ' hτ)
+    rcases hl.1 with hc | hb
+    · simp only [Stmt.clean, Bool.and_eq_true, List.all_eq_true, Bool.not_eq_true'] at hc
+      exact exec_agree_clean K A s hc.1 (fun a hin => by simpa using hc.2 a hin) σ σ' h
+    · exact exec_agree_binding K A s hb σ σ' h
+
+/-- entries of `parse_conf` whose branch cannot write `k` do not matter for `k` -/
+theorem Table.parsePhase_skip (T : Table) (p k : Nat) (pre post : Confs) (e : Nat × Raw)
+    (he : ∀ kv ∈ T.outcome p e.1 e.2, kv.1 ≠ k) (P : PMap) :
+    T.parsePhase p (pre ++ e :: post) P k = T.parsePhase p (pre ++ post) P k := by
+  unfold Table.parsePhase
+  simp only [List.foldl_append, List.foldl_cons]
+  generalize List.foldl (fun P e => applyOutcome P (T.outcome p e.1 e.2)) P pre = Q
+  have h1 : applyOutcome Q (T.outcome p e.1 e.2) k = Q k := by
+    rw [applyOutcome_apply, lastOf_none_of_not_mem k _ he]; rfl
+  -- the remaining fold only looks at key `k` through the current value
+  have hgen : ∀ (l : Confs) (Q1 Q2 : PMap), Q1 k = Q2 k →
+      List.foldl (fun P e => applyOutcome P (T.outcome p e.1 e.2)) Q1 l k =
+      List.foldl (fun P e => applyOutcome P (T.outcome p e.1 e.2)) Q2 l k := by
+    intro l
+    induction l with
+    | nil => intro Q1 Q2 h; exact h
+    | cons x xs ih =>
+      intro Q1 Q2 h
+      simp only [List.foldl_cons]
+      apply ih
+      rw [applyOutcome_apply, applyOutcome_apply, h]
+  exact hgen post _ _ h1
+
+theorem Table.parsePhase_congr_key (T : Table) (p k : Nat) : ∀ (l : Confs) (Q1 Q2 : PMap), Q1 k = Q2 k →
+    T.parsePhase p l Q1 k = T.parsePhase p l Q2 k := by
+  intro l
+  induction l with
+  | nil => intro Q1 Q2 h; exact h
+  | cons x xs ih =>
+    intro Q1 Q2 h
+    have h1 : T.parsePhase p (x :: xs) Q1 = T.parsePhase p xs (applyOutcome Q1 (T.outcome p x.1 x.2)) := rfl
+    have h2 : T.parsePhase p (x :: xs) Q2 = T.parsePhase p xs (applyOutcome Q2 (T.outcome p x.1 x.2)) := rfl
+    rw [h1, h2]
+    apply ih
+    rw [applyOutcome_apply, applyOutcome_apply, h]
+
+/-- a conf key whose branches cannot write `k` does not matter for parameter key `k` -/
+theorem Table.parseConf_skip (T : Table) (k t : Nat) (hk : k ∉ T.targetsOf t) (pre post : Confs) (r : Raw) :
+    T.parseConf (pre ++ (t, r) :: post) k = T.parseConf (pre ++ post) k := by
+  have hno : ∀ p, ∀ kv ∈ T.outcome p t r, kv.1 ≠ k := fun p kv hkv heq => hk (heq ▸ T.outcome_keys p t r kv hkv)
+  unfold Table.parseConf
+  rw [T.parsePhase_skip 1 k pre post (t, r) (hno 1)]
+  exact T.parsePhase_congr_key 1 k _ _ _ (T.parsePhase_skip 0 k pre post (t, r) (hno 0) _)
+
 end PhononModel.Settings
